@@ -595,6 +595,8 @@ class Fn:
         B, t, ty = self.ex(e.value)
         if is_(ty, "pair") and isinstance(e.slice, ast.Constant) and e.slice.value in (0, 1):
             return B, f"({'fst' if e.slice.value == 0 else 'snd'} {t})", ty[1 + e.slice.value]
+        if ty == LIST(STR) and t.startswith("(split ") and isinstance(e.slice, ast.Constant) and e.slice.value == 0:
+            return B, "(split_head " + t[len("(split "):], STR          # s.split("/")[0]: split never returns []
         if is_(ty, "list") and ty[1] is not None and isinstance(e.slice, ast.Constant) and e.slice.value == 0:
             x = self.tmp()
             return B + [(x, f"py_index0 {t}")], x, ty[1]
@@ -798,6 +800,13 @@ class Fn:
                 and e.args[0].value == "/" and isinstance(e.args[1], ast.Constant) and e.args[1].value == 1:
             x = self.tmp()
             return B + [(x, f"py_split1 {t}")], x, PAIR(STR, STR)
+        if ty == STR and f.attr == "startswith" and nargs == 1 and plain:
+            a, ta = self.pure(e.args[0])
+            if ta != STR:
+                self.err(e, "startswith of a non-str")
+            return B, f"(str_prefixb {a} {t})", BOOL
+        if ty == STR and f.attr == "split" and nargs == 1 and plain and isinstance(e.args[0], ast.Constant) and e.args[0].value == "/":
+            return B, f"(split {t})", LIST(STR)
         if is_(ty, "sdict") and plain:
             if f.attr == "copy" and nargs == 0:
                 return B, t, ty
